@@ -13,6 +13,18 @@ is grouping's text preservation (C02).  Pieces are non-empty after `strip()` (`p
 (`resplit_tokens`) and, for texts, under the explicit lexical hypothesis `LexStable` (`resplit_text`); the unchanged code violates that
 hypothesis for context-sensitive lexemes (known findings KF-C04-1/2), which is exactly where re-splitting a piece can differ.
 -/
+/-!
+## Hypotheses audit (C04)
+
+* `statements_partition_tokens/text`, `pieces_nonempty`, `nonws_token_starts_nonspace`, `resplit_tokens`, `resplit_tokens_trimmed`: no
+  restriction on the input (every text, every token stream; for the token-level theorems every configuration).
+* `resplit_text` / `resplit_text_cut` / `resplit_text_any`: `LexStable st` / `LexStableC st` — the piece, lexed on its own, gives the
+  tokens it had in context (minus the cut whitespace).  NEEDED (KF-C04-1): `x; # ` → `split` gives `['x; #']`, but `split('x; #')` gives
+  `['x;', '#']` (without the blank `#` is an operator, so the `;` now ends a statement); `GO:create begin select 1; end;` → pieces `GO`
+  and `:create begin select 1; end;`, the second re-splits into two (`:create` is a placeholder only when nothing word-like precedes the
+  `:`).  Both are `LexStable`-false; the driver command `lexstable` evaluates the predicate.
+-/
+
 namespace Sql.C04
 
 /-- **token partition.** Whatever the splitter returns, concatenating the statements and a dropped tail of whitespace-typed tokens gives
